@@ -37,7 +37,7 @@ FLOORS = {"quick": {"pipelines": 1500, "elements_checked": 5000, "packets_throug
                        "el_TwoRateTokenBucket": 4000, "el_SP": 2000, "el_WFQ": 2000, "el_VC": 2000, "el_DRR": 2000,
                        "el_RR": 2000, "el_WRR": 2000, "el_FlowDemux": 1000, "el_FIBDemux": 1000,
                        "el_SimplePacketSwitch": 1000, "el_FairPacketSwitch": 1000}}
-KEYS = tuple(FLOORS["quick"].keys()) + ("table_reconfigurations",)
+KEYS = tuple(FLOORS["quick"].keys()) + ("table_reconfigurations", "stray_flow_cases", "stray_packets_refused")
 SINGLE = ["Port", "Wire", "TokenBucket", "TwoRateTokenBucket", "SP", "WFQ", "VC", "DRR", "RR", "WRR", "Port", "Wire"]
 FAN = ["FlowDemux", "FIBDemux", "SimplePacketSwitch", "FairPacketSwitch"]
 
@@ -480,9 +480,68 @@ class vnet_quiet:
         sys.stdout = self.o
 
 
+def gen_stray(rng):
+    """FIBDemux -> WFQ / VirtualClock, where the table also routes flows the scheduler has no weight for: such a
+    packet is refused by the scheduler (KeyError), which the demux turns into "no route" (default output).  A
+    refused packet is accounted for there and nowhere else."""
+    kind = rng.choice(["WFQ", "VC"])
+    flows = list(range(rng.randint(1, 3)))
+    stray = [7, 9][:rng.randint(1, 2)]
+    arr = vnet.gen_arrivals(rng, len(flows) + len(stray), "float", rng.randint(6, 40), [100, 200, 1000], None, burst_p=0.5,
+                            flows=flows + stray)
+    return {"kind": "stray", "sched": kind, "flows": flows, "stray": stray, "rate": rng.choice([8000, 64000]),
+            "weights": {str(f): rng.choice([1, 2, 0.5]) for f in flows}, "arrivals": arr}
+
+
+def run_stray(case, stats):
+    from onl.scheduler import WFQ, VC
+    from onl.netdev.demux import FIBDemux
+    viol = []
+    net = vnet.Net()
+    env = net.env
+    w = {int(f): x for f, x in case["weights"].items()}
+    sched = (WFQ if case["sched"] == "WFQ" else VC)(env, case["rate"], w)
+    out, dflt = net.recorder("out"), net.recorder("default")
+    sched.out = out
+    dm = FIBDemux(outs=[sched], fib={f: 0 for f in case["flows"] + case["stray"]}, default_out=dflt)
+    net.tap_put(dm, "demux")
+    net.drivers(dm, case["arrivals"])
+    with vnet_quiet():
+        err = net.run()
+    stats["stray_flow_cases"] += 1
+    if err:
+        return [(err + f"[{case['sched']}, flows without a weight]", "the run raised", net.errors[-1] if net.errors else err)]
+    ins = net.tape.of("demux", "in")
+    at_out = [e[5] for e in net.tape.of("out", "out")]
+    at_def = [e[5] for e in net.tape.of("default", "out")]
+    for e in ins:
+        u = e[5]
+        f = net.pk.objs[u].flow_id
+        n_out, n_def = at_out.count(u), at_def.count(u)
+        if f in case["stray"]:
+            stats["stray_packets_refused"] += 1
+            if (n_out, n_def) != (0, 1):
+                viol.append((f"refused-packet-not-accounted-once[{case['sched']}]", "a packet the scheduler refused (no weight for its class) is not accounted for exactly once at the default output",
+                             {"at_out": n_out, "at_default": n_def}))
+                break
+        elif (n_out, n_def) != (1, 0):
+            viol.append((f"conservation-broken[{case['sched']}][after a refused packet]", "a packet of a configured flow did not leave the scheduler exactly once",
+                         {"flow": f, "at_out": n_out, "at_default": n_def}))
+            break
+    if not viol and sched.total_packets != 0:
+        viol.append((f"still-held-at-end[{case['sched']}][after a refused packet]", "arrivals stopped and the simulation ran out of events but the scheduler still counts packets as held",
+                     {"total_packets": sched.total_packets}))
+    return viol
+
+
 def one_case(ctx, case):
     import collections
     stats = collections.Counter({k: 0 for k in KEYS})
+    if case.get("kind") == "stray":
+        viol = run_stray(case, stats)
+        for k in KEYS:
+            ctx.count(k, stats[k])
+        return viol, stats["stray_packets_refused"] >= 1
     viol = run_case(case, stats)
     for k in KEYS:
         ctx.count(k, stats[k])
@@ -493,7 +552,7 @@ def one_case(ctx, case):
 
 def run_shard(ctx):
     for i in ctx.cases(ncases(ctx.tier)):
-        case = gen_case(ctx.rng(i), i)
+        case = gen_stray(ctx.rng(i)) if i % 30 == 11 else gen_case(ctx.rng(i), i)
         viol, nt = one_case(ctx, case)
         for m, what, wit in viol:
             ctx.violation(m, what, wit, case)
